@@ -419,6 +419,50 @@ def exec_xdev(ctx, case):
                         walker, case['what'], 'listed' if case['listed'] else 'stray'),
                         '%s completed (%r) in one-file-system mode although %s %r is on '
                         'another device' % (walker, val, case['what'], lp), c2)
+        if case['what'] == 'manifest' and case['listed'] and not case['ignored']:
+            # the foreign sub-Manifest itself carries stale entries for the files of
+            # its directory (so an update has to rewrite it): the update walk must
+            # still refuse it in one-file-system mode, in whatever order the
+            # directory is listed
+            import hashlib
+            mdir = os.path.dirname(lp)
+            names = sorted(n for n in os.listdir(os.path.join(root, mdir))
+                           if os.path.isfile(os.path.join(root, mdir, n))
+                           and n != 'Manifest')
+            for k in range(3):
+                nm = 'stale%d' % k
+                with open(os.path.join(root, mdir, nm), 'w') as f:
+                    f.write('content of ' + nm)
+                names.append(nm)
+            fm = ''.join('DATA %s 0 SHA256 %s\n' % (n, hashlib.sha256(b'').hexdigest())
+                         for n in names).encode()
+            with open(os.path.join(ext, 'foreign-Manifest'), 'wb') as f:
+                f.write(fm)
+            keep = [f for f in listed if os.path.dirname(f) != mdir]
+            write_manifest(root, keep, ignores,
+                           [mtext.file_entry('MANIFEST', lp, fm, ['SHA256'])])
+            for j in range(4):
+                for walker in ('update', 'update-inc'):
+                    c2 = dict(case, walker=walker, allow_xdev=False, stale=True)
+                    ctx.count('xdev_stale_foreign_manifest_cases')
+                    (kind, val), yields = run_walker(root, walker, case['wseed'] + j,
+                                                     False)
+                    with open(os.path.join(ext, 'foreign-Manifest'), 'rb') as f:
+                        now = f.read()
+                    if now != fm:
+                        ctx.violation('xdev-foreign-manifest-written:' + walker,
+                                      'the sub-Manifest on the other file system was '
+                                      'rewritten in one-file-system mode', c2)
+                        return
+                    if kind == 'exc' and isinstance(val, ManifestCrossDevice):
+                        continue
+                    ctx.violation('xdev-not-raised:%s:manifest:stale-entries' % walker,
+                                  '%s %s in one-file-system mode although the '
+                                  'sub-Manifest %r (with stale entries, so it is due '
+                                  'for rewriting) is on another device' % (
+                                      walker, 'completed' if kind != 'exc' else
+                                      'raised %r' % (val,), lp), c2)
+                    return
 
 
 def cli_multi_xdev(ctx, d, root, case, lp, listed, ignores, extra):
